@@ -323,7 +323,8 @@ func alignCase(c *Ctx, prop string, mt imat, a, b []byte, kind string) {
 				og = fmt.Sprintf("Global returns %v above the optimum %v", g.score, opt)
 			}
 		}
-		if nonPos && lstr != "PANIC" {
+		// C09 does not restrict the gap scores (only gap-open = 0): the positive-gaps family checks Local's optimum too
+		if (nonPos || (prop == "C09" && kind == "positive-gaps" && mt.open == 0)) && lstr != "PANIC" {
 			opt := gotoh(mt.m, a, b, true)
 			if lsc < opt {
 				ol = fmt.Sprintf("Local returns %v but a local alignment scoring %v exists", lsc, opt)
@@ -336,7 +337,7 @@ func alignCase(c *Ctx, prop string, mt imat, a, b []byte, kind string) {
 	nt := len(a) > 0 && len(b) > 0
 	c.add(Case{Op: "al.global " + matArgs(mt.m) + " " + hx(a) + " " + hx(b), Impl: strings.Replace(gs, "PANIC", "P", 1),
 		Kind: kind + "-global", Nontrivial: nt, Oracle: og, Note: "align.Global " + note})
-	if nonPos || prop == "C08" {
+	if nonPos || prop == "C08" || (prop == "C09" && kind == "positive-gaps") {
 		c.add(Case{Op: "al.local " + matArgs(mt.m) + " " + hx(a) + " " + hx(b), Impl: strings.Replace(lstr, "PANIC", "P", 1),
 			Kind: kind + "-local", Nontrivial: nt, Oracle: ol, Note: "align.Local " + note})
 	}
